@@ -123,6 +123,9 @@ def gen_unicode(rng, n):
             s = "".join(rng.choice(POOLS[rng.choice(pools)]) for _ in range(ln))
             if mode > 0.7:   # give it a plausible OCTAVE frame so that the parser is reached
                 s = rng.choice(["K::", "===D===\nK::", "K:\n  X::", "META:\n  TYPE::", "K::[", 'K::"']) + s
+            elif mode > 0.62:  # the string as the NAME of an envelope line (the envelope regex is ASCII-only, the
+                # diagnostic for a rejected name uses Unicode-aware str methods: both must agree on every name)
+                s = "===" + s[: rng.randint(1, 10)].replace("\n", "") + "===\nK::1\n===END===\n"
         out.append(s)
     return out
 
@@ -165,6 +168,8 @@ def mutate(rng, text, k):
 # --------------------------------------------------------------------------------------------------
 CURATED = [
     "",
+    "===Caf\u00e9===\nK::1\n===END===\n", "===\u0414\u041e\u041a===\nK::1\n===END===\n", "===\u6587\u6863===\nK::1\n===END===\n",
+    "===DOC\u00b2===\nK::1\n===END===\n", "===_\u00e9_1===\n===END===\n", "===\u0661\u0662===\nK::1\n", "===A\u0301===\nK::1\n===END===\n",
     "K::zz",
     "K::v",
     '===D===\nF::["x"\u2227REQ\u2192\u00a7SELF]\n===END===\n',
